@@ -1434,6 +1434,29 @@ def indices(dimensions, dtype=int, **kw):
     return from_numpy(rnp.indices(dims, dtype=dt))
 
 
+def isclose(a, b, rtol=1e-05, atol=1e-08, equal_nan=False):
+    """numpy.isclose for scalars: |a - b| <= atol + rtol * |b| (NumPy's documented, asymmetric formula), exact over the reals"""
+    if isinstance(a, SArr) or isinstance(b, SArr):
+        raise Unsupported("numpy.isclose on arrays is not modelled")
+    from fractions import Fraction as _Fr
+    for v in (a, b):
+        if isinstance(v, float) and (v != v or v in (float("inf"), float("-inf"))):
+            return rnp.isclose(float(a) if not isinstance(a, SNum) else 0.0, float(b) if not isinstance(b, SNum) else 0.0, rtol, atol, equal_nan) if not (isinstance(a, SNum) or isinstance(b, SNum)) else False
+    if not isinstance(a, SNum) and not isinstance(b, SNum):
+        return builtins.bool(rnp.isclose(a, b, rtol, atol, equal_nan))
+
+    def real(x):
+        if isinstance(x, SNum):
+            return z3.ToReal(x.t) if x.t.sort() == z3.IntSort() else x.t
+        f = _Fr(x)
+        return z3.RealVal(f)
+    ra, rb = real(a), real(b)
+    d = ra - rb
+    ad = z3.If(d >= 0, d, -d)
+    ab = z3.If(rb >= 0, rb, -rb)
+    return SBool(ad <= real(float(atol)) + real(float(rtol)) * ab)
+
+
 def sqrt(a):
     if isinstance(a, SArr):
         return SArr([_sqrt_cell(c) for c in a.cells], F64, a.shape)
@@ -1595,6 +1618,7 @@ def build_module():
     m.arange = arange
     m.indices = indices
     m.sqrt = sqrt
+    m.isclose = isclose
     m.multiply = multiply
     m.add = _Add()
     m.concatenate = concatenate
